@@ -8,6 +8,7 @@ import (
 	"os"
 	"os/exec"
 	"regexp"
+	"strconv"
 	"strings"
 	"sync"
 	"time"
@@ -106,6 +107,9 @@ func (w *worker) stop() {
 	w.cmd = nil
 }
 
+// lastOpArg: the numeric argument of the last @op marker seen by classifyDeath (set under p.mu by its only caller)
+var lastOpArg int
+
 var opMark = regexp.MustCompile(`@op (\w+) (-?\d+)`)
 
 // classifyDeath reads the dead worker's stderr.
@@ -113,6 +117,7 @@ func classifyDeath(stderr string, timedOut bool) (died, op string) {
 	ms := opMark.FindAllStringSubmatch(stderr, -1)
 	if len(ms) > 0 {
 		op = ms[len(ms)-1][1]
+		lastOpArg, _ = strconv.Atoi(ms[len(ms)-1][2])
 	}
 	if timedOut {
 		return "timeout", op
@@ -159,7 +164,7 @@ func (w *worker) run(p *pool, j *job, limit time.Duration) {
 		w.in.WriteByte('\n')
 		w.known[j.b.ID] = true
 	}
-	rq, _ := json.Marshal(map[string]any{"id": j.b.ID, "mut": j.mut, "extra": j.extra})
+	rq, _ := json.Marshal(map[string]any{"id": j.b.ID, "mut": j.mut, "extra": j.extra, "subsets": j.subsets, "subset_only": j.subsetOnly})
 	w.errb.Reset()
 	w.in.WriteString("case ")
 	w.in.Write(rq)
@@ -191,7 +196,10 @@ func (w *worker) run(p *pool, j *job, limit time.Duration) {
 	// the worker died (or was killed)
 	w.cmd.Wait()
 	time.Sleep(20 * time.Millisecond)
+	p.mu.Lock()
 	j.died, j.diedOp = classifyDeath(w.errb.String(), timedOut)
+	j.diedA = lastOpArg
+	p.mu.Unlock()
 	if j.died == "crash:unknown" {
 		s := w.errb.String()
 		if len(s) > 600 {
